@@ -7,6 +7,12 @@
 (* start-up nn) | accept h | commit h (state of h committed, observer not yet *)
 (* notified) | notify h | crash | final | stop.  Heights are those of the     *)
 (* reference chain a never-crashed node executed (-1 = matches none).         *)
+(* Modelling assumption checked by the snow-level family: the index update of  *)
+(* one block (last-accepted pointer, block bytes, id<->height maps, pruning)   *)
+(* is ONE atomic durable step.  The driver crashes after every individual      *)
+(* database write inside it; the image must then be the specification's state  *)
+(* before or after the step ("accept h" is logged iff the pointer names h) and *)
+(* the restart from it must succeed like from any other crash point.           *)
 (* A successful restart is bound to the property only (same last accepted     *)
 (* block, state root and results as the never-crashed node at the indexed     *)
 (* height; any start-up notifications), not to today's recovery algorithm.    *)
@@ -46,6 +52,7 @@ TStartOK ==
 (* Initialize failed: only explained inside the regions of the recorded findings *)
 TStartKF ==
   /\ Ev("start") /\ T.res # "ok" /\ ~up /\ ~failed
+  /\ T.fam = "vm"                      \* the two restart findings are findings of vm.VM's recovery
   /\ \/ KF_C18_restart_panics_one_uncommitted_block /\ T.res = "panic"
      \/ KF_C18_restart_refused_uncommitted_blocks /\ T.res = "err"
   /\ RestartFails
